@@ -80,6 +80,7 @@ var defaultBlackhole = []string{
 var defaultRedirect = map[string]string{
 	"errors.Is":                         "ErrorsIs",
 	"errors.Unwrap":                     "ErrorsUnwrap",
+	"errors.As":                         "ErrorsAs",
 	"internal/bytealg.IndexByte":        "IndexByte",
 	"internal/bytealg.IndexByteString":  "IndexByteString",
 	"internal/bytealg.CountString":      "CountString",
